@@ -1072,8 +1072,14 @@ class Exec(Interp):
             elif isinstance(p, ast.FormattedValue):
                 v = self.eval(p.value)
                 if p.format_spec is not None or p.conversion not in (-1, 115):
-                    self.eval(p.format_spec) if p.format_spec is not None else None
-                    parts.append(V.repr_of(v) if p.conversion == 114 else prelude.to_str(self, v))
+                    spec = self.eval(p.format_spec) if p.format_spec is not None else None
+                    base = V.repr_of(v) if p.conversion == 114 else prelude.to_str(self, v)
+                    if spec is not None and not (V.ctor_name(z3.simplify(spec)) == "str" and z3.is_string_value(z3.simplify(Val.s(spec)))
+                                                 and z3.simplify(Val.s(spec)).as_string() == ""):
+                        # a format specification (width, precision, base ...) changes the text: an uninterpreted function
+                        # of the value's text and the specification (nothing is known about it but that it is a str)
+                        base = prelude.format_spec_of(base, Val.s(z3.simplify(spec)))
+                    parts.append(base)
                 else:
                     parts.append(prelude.to_str(self, v))
         if not parts:
